@@ -110,6 +110,11 @@ def run(rep, tier, seed):
                     pad = dict(inp)
                     pad["Zz fresh"] = Decimal(99)
                     pad["zzother"] = "pad"
+                    # names the logic uses that no requirement binds: built-in functions, entries of boxed contexts,
+                    # formal parameters, relation columns (an input entry of that name is still outside the closure)
+                    for nm, v in (("sum", Decimal(100)), ("max", Decimal(1)), ("min", "m"), ("abs", Decimal(2)), ("floor", "f"), ("count", Decimal(5)), ("ea", Decimal(999)), ("eb", "x"), ("ee", Decimal(7)), ("na", Decimal(8)),
+                                  ("pa", Decimal(998)), ("pb", Decimal(997)), ("fa", Decimal(996)), ("ra", Decimal(995)), ("ca", "c")):
+                        pad[nm] = v
                     for i in m["inputs"]:
                         if i["name"] not in ins_closure and inv not in [s["name"] for s in m["services"]]:
                             pad[i["name"]] = Decimal(12345) if i["type"] == "number" else "PAD"
